@@ -322,6 +322,11 @@ impl Prop for C20 {
     fn needs_binary(&self) -> bool {
         true
     }
+    fn fuzz_decoders(&self) -> Vec<&'static str> {
+        // decided on separate processes (faults / schedules): in-process coverage feedback has
+        // nothing to steer, see DESIGN §10
+        Vec::new()
+    }
     fn check(&self, t: &mut Tape, ctx: &mut Ctx) -> Verdict {
         let sc = gen_scenario(t);
         let dir = ctx.scratch.join(format!("c20-{}-{}", std::process::id(), ctx.shard));
